@@ -19,6 +19,7 @@ that half on the real code:
 from __future__ import annotations
 
 import itertools
+import dataclasses
 import time
 
 import numpy as np
@@ -695,6 +696,22 @@ def batch_problems(rng, d, nb, fixed=False):
     return out
 
 
+def _num_leaves(spec):
+    if spec[0] == "L":
+        return 1
+    children = spec[1] if spec[0] in ("T", "S") else [c for _, c in (spec[1] if spec[0] == "D" else spec[2])]
+    return sum(_num_leaves(c) for c in children)
+
+
+def _spec_multi_leaf(rng, d):
+    """a random state structure with at least two array leaves"""
+    for _ in range(50):
+        spec = lib.random_spec(rng, d, force=["T", "D", "N"][int(rng.integers(3))])
+        if _num_leaves(spec) >= 2:
+            return spec
+    return ("T", [("L", ()) for _ in range(d)])
+
+
 def configs_for(ctx, fact, it):
     """(fixed-grid config, adaptive config) for this factorisation, rotating strategy / calibration / linearisation"""
     rng = ctx.rng
@@ -703,7 +720,8 @@ def configs_for(ctx, fact, it):
     lin_a = "ts1" if (fact == "dense" and rng.random() < 0.5) or (fact != "dense" and not ctx.quick and rng.random() < 0.3) else "ts0"
     q = int(rng.integers(2, 4))
     cf = Cfg(fact, ["fixedinterval", "filter"][int(rng.integers(2))], "fixed", lin=lin_f, calib=calibs[int(rng.integers(3))], q=q, ngrid=int(rng.integers(4, 8)), container=["list", "tuple", "namedtuple"][int(rng.integers(3))])
-    ca = Cfg(fact, ["fixedpoint", "filter"][(it + int(rng.integers(2))) % 2], "adaptive", lin=lin_a, calib=calibs[int(rng.integers(3))], q=q, ngrid=int(rng.integers(3, 6)), tol=float(10.0 ** -int(rng.integers(2, 5))), container=["list", "tuple", "namedtuple"][int(rng.integers(3))])
+    ca = Cfg(fact, ["fixedpoint", "filter"][(it + int(rng.integers(2))) % 2], "adaptive", lin=lin_a, calib=calibs[int(rng.integers(3))], q=q, ngrid=int(rng.integers(3, 6)), tol=float(10.0 ** -int(rng.integers(2, 5))), container=["list", "tuple", "namedtuple"][int(rng.integers(3))],
+             est=["residual", "state", "state1"][it % 3])
     return cf, ca
 
 
@@ -735,6 +753,16 @@ def solve_round(ctx, fact, rnd):
     else:
         spec = lib.random_spec(rng, d)
         check_tree(ctx, cfg_t, problem, spec, ref_t, kap_t)
+    if fact == FACTS[(ctx.seed + rnd + 2) % 3]:
+        # both error estimators read the state through pytree helpers (number of Taylor coefficients = contraction rate,
+        # reference coefficient): one adaptive pytree-vs-flat comparison per estimator family in every run, whatever the rotation
+        for est in ("residual", "state1"):
+            cfg_e = dataclasses.replace(ca, est=est)
+            if cfg_e == cfg_t:
+                continue
+            sv_e = Solves(cfg_e)
+            ref_e = sv_e.obs(problem)
+            check_tree(ctx, cfg_e, problem, _spec_multi_leaf(rng, d), ref_e, amplification(ctx, sv_e, problem, ref_e))
     if not ctx.quick:
         # thorough: a second structure with the other configuration
         cfg_o, ref_o, kap_o = (ca, ref_a, kap_a) if cfg_t is cf else (cf, ref_f, kap_f)
